@@ -23,35 +23,33 @@ Theorem C12_estimate_real_short :
 Proof. exact estimate_real_short. Qed.
 Print Assumptions C12_estimate_real_short.
 
-(* (2) estimate, complex data: on the domain where the implementation returns, the two
-   components carry the 2x2 covariance matrix of the mean; the full statement is REFUTED: when the
-   sample covariance of the components is exactly 0 (e.g. a constant component) it raises *)
-Theorem C12_estimate_complex_on_nonzero_cov :
-  forall l : list (R * R), (2 <= length l)%nat -> ccov l <> 0 ->
+(* (2) estimate, complex data, EVERY sample with N >= 2 (formerly refuted for sample covariance 0:
+   fixed finding C12-estimate-complex-r0): the two components carry the 2x2 covariance matrix of
+   the mean; they are declared independent exactly when the sample covariance is 0, and then no
+   correlation register is written *)
+Theorem C12_estimate_complex :
+  forall l : list (R * R), (2 <= length l)%nat ->
     let re := res_ l in let im := ims_ l in let n := lenR l in
-    exists ure uim r,
-      estimate_cplx RNum l = Ok (mkLeaf (meanR re) ure (n - 1) false, mkLeaf (meanR im) uim (n - 1) false, r)
-      /\ ure * ure = svar re / n /\ uim * uim = svar im / n /\ ure * uim * r = ccov l / n.
-Proof.
-  intros l H Hc re im n.
-  destruct (estimate_cplx_R l H) as [E _]. destruct (estimate_cplx_cov l H Hc) as (C1 & C2 & C3).
-  eexists _, _, _. split; [apply E; assumption|]. split; [exact C2|]. split; [exact C3|exact C1].
-Qed.
-Print Assumptions C12_estimate_complex_on_nonzero_cov.
+    exists lre lim o,
+      estimate_cplx RNum l = Ok (lre, lim, o)
+      /\ lx lre = meanR re /\ lx lim = meanR im /\ ldf lre = n - 1 /\ ldf lim = n - 1
+      /\ lu lre * lu lre = svar re / n /\ lu lim * lu lim = svar im / n
+      /\ lu lre * lu lim * (match o with Some r => r | None => 0 end) = ccov l / n
+      /\ lind lre = lind lim /\ (lind lre = true <-> ccov l = 0) /\ (o = None <-> ccov l = 0).
+Proof. exact estimate_cplx_full. Qed.
+Print Assumptions C12_estimate_complex.
 
-Theorem C12_estimate_complex_zero_cov_raises :
-  forall l : list (R * R), (2 <= length l)%nat -> ccov l = 0 -> estimate_cplx RNum l = Err AttributeError.
-Proof. intros l H. exact (proj2 (estimate_cplx_R l H)). Qed.
-Print Assumptions C12_estimate_complex_zero_cov_raises.
-
-Theorem C12_estimate_complex_refuted :
-  exists l : list (R * R), (2 <= length l)%nat /\ estimate_cplx RNum l = Err AttributeError.
+(* the input that used to raise AttributeError (constant imaginary component) *)
+Example C12_estimate_complex_constant_component :
+  exists lre lim, estimate_cplx RNum [(1, 1); (2, 1)] = Ok (lre, lim, None) /\ lind lre = true /\ lu lim = 0.
 Proof.
-  exists [(1, 1); (2, 1)]. split; [cbn; auto|].
-  apply C12_estimate_complex_zero_cov_raises; [cbn; auto|].
-  unfold ccov, scov, meanR, lenR, len. cbn. field.
+  assert (ccov [(1, 1); (2, 1)] = 0) as Hc by (unfold ccov, scov, meanR, lenR, len; cbn; field).
+  assert (svar (ims_ [(1, 1); (2, 1)]) = 0) as Hv by (unfold svar, scov, meanR, lenR, len; cbn; field).
+  pose proof (estimate_cplx_R [(1, 1); (2, 1)]) as E. cbv zeta in E.
+  rewrite E by (cbn; auto). unfold is0. rewrite Hc. destruct (Req_EM_T 0 0); [|contradiction].
+  eexists _, _. split; [reflexivity|]. cbn [lind lu]. split; [reflexivity|].
+  rewrite Hv, sqrt_0. unfold Rdiv. apply Rmult_0_l.
 Qed.
-Print Assumptions C12_estimate_complex_refuted.
 
 (* (3) mean, standard_deviation, standard_uncertainty, variance_covariance_complex agree with
    these, whatever the kind of data (floats / uncertain numbers: only values are used) *)
@@ -201,11 +199,31 @@ Proof.
 Qed.
 
 (* ---------------- floating point: exactly collinear series ---------------- *)
-(* In binary64 the same model (FNum, libm results as recorded on the implementation) raises
-   ValueError for the exactly collinear sample a = [0.75, 2, -1.5], b = 2a: r = cv/(u_a u_b)
-   rounds to 1 + 2^-52 and set_correlation_real rejects it.  (4) shows this cannot happen in
-   exact arithmetic: the property fails on this input because of rounding only. *)
+(* Formerly C12_multi_collinear_refuted_float (fixed finding C12-multi-collinear-valueerror): in
+   binary64 r = cv/(u_a u_b) rounds to 1 + 2^-52 for the exactly collinear sample
+   a = [0.75, 2, -1.5], b = 2a, and set_correlation_real rejected it.  The estimators now pass r
+   through _clip_r (generated as g_clip_r).  For EVERY binary64 r and every oracle table: the clipped
+   value is r itself or exactly +-1, and a ValueError after clipping can only come from a value
+   _clip_r left unchanged (outside the rounding band); on the old witness the same FNum model now
+   returns the two numbers with correlation exactly 1. *)
 From Coq Require Import PrimFloat.
+Theorem C12_clip_float :
+  forall tbl (r : PrimFloat.float),
+    exists c, g_clip_r (FNum tbl) r = Ok c /\
+              (c = r \/ c = 1%float \/ c = (-1)%float) /\
+              (set_corr (FNum tbl) false false c = Err ValueError -> c = r).
+Proof.
+  intros tbl r. destruct (clip_float_cases tbl r) as (c & E & Hc).
+  destruct (clip_float_no_rounding_error tbl r) as (c' & E' & Hs).
+  rewrite E in E'. injection E' as <-. exists c. auto.
+Qed.
+Print Assumptions C12_clip_float.
+
+(* and in exact arithmetic the clip never acts on what the estimators compute (|r| <= 1) *)
+Theorem C12_clip_identity_on_unit_interval : forall r : R, Rabs r <= 1 -> g_clip_r RNum r = Ok r.
+Proof. exact g_clip_r_R. Qed.
+Print Assumptions C12_clip_identity_on_unit_interval.
+
 Local Close Scope R_scope.
 Local Open Scope float_scope.
 Definition collinear_tbl : list oracle_entry :=
@@ -216,8 +234,10 @@ Definition collinear_tbl : list oracle_entry :=
    (F_pow, [0x1.5555555555555p-1; 0x1.0000000000000p+1], Ok 0x1.c71c71c71c71cp-2);
    (F_pow, [0x1.9555555555555p+1; 0x1.0000000000000p+1], Ok 0x1.40e38e38e38e3p+3);
    (F_pow, [(-0x1.eaaaaaaaaaaabp+1); 0x1.0000000000000p+1], Ok 0x1.d638e38e38e3ap+3)].
-Example C12_multi_collinear_refuted_float :
+Example C12_multi_collinear_float :
   run (FNum collinear_tbl)
       (CMulti KFloat [[0x1.8p-1; 0x1p+1; (-0x1.8p+0)]; [0x1.8p+0; 0x1p+2; (-0x1.8p+1)]])
-  = OExn ValueError.
+  = OLeaves [mkLeaf 0x1.aaaaaaaaaaaabp-2 0x1.0625fccfd312bp+0 0x1p+1 false;
+             mkLeaf 0x1.aaaaaaaaaaaabp-1 0x1.0625fccfd312bp+1 0x1p+1 false]
+            [[0x1p+0]; []] [[0%Z; 1%Z]; [0%Z; 1%Z]].
 Proof. vm_compute. reflexivity. Qed.
